@@ -67,17 +67,18 @@ async fn h23((a, b): (String, String), Query(d): Query<QueryD>, JSON(j): JSON<Bo
 async fn h24((a, b): (u32, u32), Query(d): Query<QueryD>, Query(e): Query<QueryE>, JSON(j): JSON<BodyJ>) -> JSON<Out> { ran(24); let _ = (b, d.d, e.e, e.f, j.name); JSON(out(a as u64)) }
 async fn h25((a, b): (String, u8), Query(q): Query<QueryB>, Query(d): Query<QueryD>, JSON(j): JSON<BodyJ>, Query(e): Query<QueryE>) -> Result<JSON<Out>, MyErr> { ran(25); let _ = (a, b, q.tag, d.d, j.name, e.e, e.f); Ok(JSON(out(25))) }
 
-#[derive(Clone)]
-struct Plain(i64);
-impl FangAction for Plain {}
-
 /// an API-key fang: the key `k15` is expected in the header `X-Key`, the query parameter `key` or the cookie `key`, and the fang documents
 /// exactly that (`SecurityScheme::APIKey(.., APIKey::header | query | cookie)`)
+// `Option<Query<T>>`: Query never answers None, so a required field of T is still required of the request — and must be documented so
+async fn h26(q: Option<Query<QueryE>>) -> String { ran(26); let _ = q.map(|Query(e)| (e.e, e.f)); String::new() }
+async fn h27((id,): (u8,), q: Option<Query<QueryD>>, JSON(b): JSON<BodyJ>) -> String { ran(27); let _ = (id, q.map(|Query(d)| d.d), b.name); String::new() }
+
 #[derive(Clone)]
-struct KeyFang(&'static str);
+struct KeyFang(&'static str);          // "plain": a fang that asks for nothing and documents nothing (one type for the four kinds: fewer instantiations of the handler catalogue)
 impl FangAction for KeyFang {
     async fn fore<'a>(&'a self, req: &'a mut Request) -> Result<(), Response> {
         let ok = match self.0 {
+            "plain" => true,
             "header" => req.headers.get("X-Key") == Some("k15"),
             "query" => req.query.iter().any(|(k, v)| k == "key" && v == "k15"),
             _ => req.headers.Cookie().map(|c| c.split("; ").any(|kv| kv == "key=k15")).unwrap_or(false),
@@ -87,6 +88,7 @@ impl FangAction for KeyFang {
     fn openapi_map_operation(&self, operation: openapi::Operation) -> openapi::Operation {
         use openapi::security::{SecurityScheme, APIKey};
         match self.0 {
+            "plain" => operation,
             "header" => operation.security(SecurityScheme::APIKey("keyHeader", APIKey::header("X-Key")), &[]),
             "query" => operation.security(SecurityScheme::APIKey("keyQuery", APIKey::query("key")), &[]),
             _ => operation.security(SecurityScheme::APIKey("keyCookie", APIKey::cookie("key")), &[]),
@@ -101,13 +103,10 @@ fn basic() -> BasicAuth<&'static str> { BasicAuth { username: "u", password: "p"
 macro_rules! with_fang {
     ($s:expr, |$f:ident| $body:expr) => {
         match $s["k"].as_str().unwrap() {
-            "plain" => { let $f = Plain($s["id"].as_i64().unwrap_or(0)); $body }
+            "plain" | "key_header" | "key_query" | "key_cookie" => { let $f = KeyFang(match $s["k"].as_str().unwrap() { "plain" => "plain", "key_header" => "header", "key_query" => "query", _ => "cookie" }); $body }
             "jwt" => { let $f = jwt(); $body }
             "basic" => { let $f = basic(); $body }
             "basic2" => { let $f = [basic(), BasicAuth { username: "u2", password: "p2" }]; $body }          // the array form of the fang
-            "key_header" => { let $f = KeyFang("header"); $body }
-            "key_query" => { let $f = KeyFang("query"); $body }
-            "key_cookie" => { let $f = KeyFang("cookie"); $body }
             "tag" => { let $f = openapi::Tag(leak(&format!("t{}", $s["id"].as_i64().unwrap_or(0)))); $body }
             k => panic!("harness: fang kind {k}"),
         }
@@ -145,7 +144,7 @@ fn add_handler(hs: Option<HS>, route: &'static str, m: &str, local: &[Value], k:
         3 => add_with_local!(hs, route, m, local, h3), 4 => add_with_local!(hs, route, m, local, h4), 5 => add_with_local!(hs, route, m, local, h5),
         6 => add_with_local!(hs, route, m, local, h6), 7 => add_with_local!(hs, route, m, local, h7), 8 => add_with_local!(hs, route, m, local, h8),
         9 => add_with_local!(hs, route, m, local, h9), 10 => add_with_local!(hs, route, m, local, h10), 11 => add_with_local!(hs, route, m, local, h11), 12 => add_with_local!(hs, route, m, local, h12),
-        13 => add_with_local!(hs, route, m, local, h13), 14 => add_with_local!(hs, route, m, local, h14), 15 => add_with_local!(hs, route, m, local, h15), 16 => add_with_local!(hs, route, m, local, h16), 17 => add_with_local!(hs, route, m, local, h17), 18 => add_with_local!(hs, route, m, local, h18), 19 => add_with_local!(hs, route, m, local, h19), 20 => add_with_local!(hs, route, m, local, h20), 21 => add_with_local!(hs, route, m, local, h21), 22 => add_with_local!(hs, route, m, local, h22), 23 => add_with_local!(hs, route, m, local, h23), 24 => add_with_local!(hs, route, m, local, h24), 25 => add_with_local!(hs, route, m, local, h25),
+        13 => add_with_local!(hs, route, m, local, h13), 14 => add_with_local!(hs, route, m, local, h14), 15 => add_with_local!(hs, route, m, local, h15), 16 => add_with_local!(hs, route, m, local, h16), 17 => add_with_local!(hs, route, m, local, h17), 18 => add_with_local!(hs, route, m, local, h18), 19 => add_with_local!(hs, route, m, local, h19), 20 => add_with_local!(hs, route, m, local, h20), 21 => add_with_local!(hs, route, m, local, h21), 22 => add_with_local!(hs, route, m, local, h22), 23 => add_with_local!(hs, route, m, local, h23), 24 => add_with_local!(hs, route, m, local, h24), 25 => add_with_local!(hs, route, m, local, h25), 26 => add_with_local!(hs, route, m, local, h26), 27 => add_with_local!(hs, route, m, local, h27),
         k => panic!("harness: handler {k}"),
     }
 }
